@@ -186,6 +186,20 @@ def render_py(sc):
     return "\n".join(lines) + "\n"
 
 
+def _exc_text(record):
+    from .harness import _exc_text as f
+
+    return f(record)
+
+
+def _scrub(h, txt):
+    if txt:
+        import re
+
+        txt = re.sub(r"/tmp/verif-c13-[A-Za-z0-9_]*", "<tmp>", txt)
+    return txt
+
+
 class _LogTap:
     """Class level wrapper around logging.Logger.handle: independent of whatever handlers a
     `logging:` section or basicConfig installs."""
@@ -201,9 +215,9 @@ class _LogTap:
 
         def handle(self, record):
             if record.name.startswith("cobald"):
-                h.log_records.append({"logger": record.name, "level": record.levelno, "msg": str(record.msg)[:80], "exc": record.exc_info[0].__name__ if record.exc_info and record.exc_info[0] else None, "t": round(S.now, 6)})
+                h.log_records.append({"logger": record.name, "level": record.levelno, "msg": str(record.msg)[:80], "exc": record.exc_info[0].__name__ if record.exc_info and record.exc_info[0] else None, "exc_text": _exc_text(record), "t": round(S.now, 6)})
                 if record.levelno >= logging.ERROR:
-                    h.ev("error-log", None, logger=record.name, msg=str(record.msg)[:60])
+                    h.ev("error-log", None, logger=record.name, msg=str(record.msg)[:60], exc_text=_scrub(h, _exc_text(record)))
             return orig(self, record)
 
         logging.Logger.handle = handle
@@ -304,6 +318,17 @@ def check(h, reason):
     early = next((e for e in ev if e["kind"] == "service-run-before-init"), None)
     if early is not None:
         V("C13/service-run-before-init/%s" % early.get("cls"), "run() of a configured service (%s) was started by the accept loop before its __init__ had finished: the unit is registered in __new__ and adopted from another thread" % early.get("cls"))
+    if early is None:
+        # the same defect with a *shipped* service class: its run() touches attributes __init__ has not set yet
+        import re
+
+        shipped = {e["cls"] for e in elems if not e["sim"] and e.get("service")}
+        for e in errors:
+            m = re.search(r"AttributeError: '(\w+)' object has no attribute", e.get("exc_text") or "")
+            if m and m.group(1) in shipped:
+                early = {"cls": m.group(1)}
+                V("C13/service-run-before-init/%s" % m.group(1), "run() of the configured shipped service %s was started by the accept loop before its __init__ had finished (%s); the daemon went down at start-up" % (m.group(1), (e.get("exc_text") or "")[:160]))
+                return v, shape, True
     hang = next((e for e in ev if e["kind"] == "exit-hangs"), None)
     if hang is not None:
         V("C13/exit-hangs", "after main returned, non-daemon thread %s was still alive: the process would hang at exit" % hang["thread"])
